@@ -6,7 +6,7 @@ MODE_FLAVOUR = {
 }
 
 _FACE_APIS = ('gr_make_face', 'gr_make_file_face', 'face-exercise', 'face-report', 'face-query', 'label', 'gr_face_destroy', 'featureval',
-              'fval-op', 'gr_make_font', 'gr_font_destroy', 'gr_face_n_fref', 'gr_face_featureval_for_lang', 'gr_featureval_clone', 'gr_featureval_destroy')
+              'fval-op', 'feat-readback', 'gr_make_font', 'gr_font_destroy', 'gr_face_n_fref', 'gr_face_featureval_for_lang', 'gr_featureval_clone', 'gr_featureval_destroy')
 _JUST_APIS = ('gr_seg_justify', 'gr_slot_linebreak_before', 'line-walk')
 
 
@@ -138,3 +138,16 @@ MANIFEST_TEXT = {
     'C19': {'text': 'Histories of line breaks and justify calls (any dir, width, flags, sub-range, repeated) with the chain/order/gid/finiteness oracle after every call, ASan/UBSan and step budget.', 'design_ref': '4.10',
             'note': 'sampled histories; gid clause only for fonts without justification passes', 'technique': _T + 'operation histories with per-step invariants'},
 }
+
+PROPS['C18'] = {
+    'level': 'exploration',
+    'batches': [{'mode': 'feat', 'quick': 12000, 'thorough': 1200000, 'chunk': 200}],
+    'rule': 'one run = 1..2 faces whose Feat/Sill/name tables are (4 of 5 times) synthesised with bit widths that land on, short of and across 32-bit word boundaries, and a seeded history of '
+            '5..60 for_lang/clone/set/get/destroy/label operations checked op by op against an independent reference map, with a full read-back of every feature of every live object after each update; '
+            'distinct = distinct plan hash; non-trivial = at least one feature-value operation was judged',
+    'require_probes': ['feat:set-accepted', 'feat:set-rejected', 'feat:label-checked', 'feat:clone', 'feat:for_lang'],
+    'assumptions': _ASSUME + ['the reference model parses the served Feat/Sill/name bytes with its own code; feature id 1 and cross-face operations are not judged (DESIGN.md 4.9)'],
+}
+MANIFEST_TEXT['C18'] = {'text': 'Operation histories over feature-value objects checked against an executable reference map (per-object map<feature, uint16>, defaults, Sill overrides, range rule, name-table labels) with full read-back after each update.',
+                        'design_ref': '4.9', 'note': 'histories and synthesised tables are sampled; label language fallback is not modelled (one-directional check)', 'technique': _T + 'operation histories vs executable reference model'}
+NOT_APPLICABLE.pop('C18')
